@@ -174,7 +174,7 @@ namespace trompeloeil {
     retire_predecessors()
     noexcept
     {
-      if (seq)
+      if (seq && !is_retired)
       {
         seq->retire_until(this);
       }
